@@ -193,8 +193,11 @@ func formatArrayLiteral(val interface{}) string {
 						// ClickHouse normalizes -0 to UInt64_0
 						if val == 0 {
 							parts = append(parts, "UInt64_0")
-						} else {
+						} else if val <= 9223372036854775808 {
 							parts = append(parts, fmt.Sprintf("Int64_-%d", val))
+						} else {
+							// Value too large for int64 - output as Float64
+							parts = append(parts, fmt.Sprintf("Float64_%s", FormatFloat(-float64(val))))
 						}
 					default:
 						parts = append(parts, fmt.Sprintf("Int64_-%v", lit.Value))
@@ -240,8 +243,11 @@ func formatNumericExpr(e ast.Expression) (string, bool) {
 				// ClickHouse normalizes -0 to UInt64_0
 				if val == 0 {
 					return "UInt64_0", true
+				} else if val <= 9223372036854775808 {
+					return fmt.Sprintf("Int64_-%d", val), true
 				}
-				return fmt.Sprintf("Int64_%d", -int64(val)), true
+				// Value too large for int64 - output as Float64
+				return fmt.Sprintf("Float64_%s", FormatFloat(-float64(val))), true
 			case float64:
 				return fmt.Sprintf("Float64_%s", FormatFloat(-val)), true
 			}
